@@ -16,6 +16,8 @@ Record tok_obs := {
   to_owner : Z;
   to_total : option Z;          (* totalSupply() as reported *)
   to_bals : list (option Z);    (* balanceOf(a) as reported, one per tracked address *)
+  to_allow : list ((Z * Z) * Z);(* kinds 1-2: allowance(owner, spender) as reported, for every pair an approval
+                                   was ever attempted on in this history *)
   to_ledger : list Z;           (* kind 5: raw storage slot of each tracked address *)
   to_cfg : list Z               (* kind 5: storage slots 0..9 *)
 }.
@@ -37,7 +39,12 @@ Inductive sop :=
 | SReload                                       (* set-up / governance step: the model adopts the observed state *)
 | SMsg (m : msg)
 | STokenCall (c caller : Z) (cl : call)
-| SBankSend (from to : Z) (d : bytes) (a : Z).
+| SBankSend (from to : Z) (d : bytes) (a : Z)
+| SHook (r : Z) (d : bytes) (a : Z)             (* Keeper.OnRecvPacket with a packet that decodes to receiver r (20
+                                                   bytes), hook denomination d, amount a; class 0 = the hook reported
+                                                   STATUS_SUCCESS, 1 = it returned otherwise, 2 = it panicked *)
+| SNoop.                                        (* Keeper.OnRecvPacket with a packet it must drop before touching the
+                                                   state: undecodable amount / receiver not 20 bytes *)
 
 Record cstep := { cs_op : sop; cs_class : nat; cs_obs : obs }.
 Record hist := { h_module : Z; h_init : obs; h_steps : list cstep }.
@@ -83,7 +90,8 @@ Definition bal_map (addrs : list Z) (bals : list (option Z)) : zmap :=
   flat_map (fun ab => match snd ab with Some v => [(fst ab, v)] | None => [] end) (zip addrs bals).
 
 Definition std_of (o : obs) (t : tok_obs) : std_token :=
-  {| st_bal := bal_map (o_addrs o) (to_bals t); st_total := match to_total t with Some v => v | None => 0 end |}.
+  {| st_bal := bal_map (o_addrs o) (to_bals t); st_total := match to_total t with Some v => v | None => 0 end;
+     st_allow := to_allow t |}.
 
 Definition etoken_of (o : obs) (t : tok_obs) : etoken :=
   {| et_kind := to_kind t; et_owner := to_owner t; et_alive := to_contract t;
@@ -115,6 +123,7 @@ Definition tok_matches (MODULE : Z) (s : state xstate) (o : obs) (t : tok_obs) :
   && (if to_kind t =? 1 then
         match find_mtok s c with
         | Some m => oz_eqb (Some (st_total m)) (to_total t)
+                    && forallb (fun kv => alget (st_allow m) (fst (fst kv)) (snd (fst kv)) =? snd kv) (to_allow t)
         | None => false
         end
       else
@@ -124,7 +133,10 @@ Definition tok_matches (MODULE : Z) (s : state xstate) (o : obs) (t : tok_obs) :
             if to_kind t =? 5
             then forallb (fun av => zget (et_store e) (fst av) =? snd av)
                          (zip (o_addrs o) (to_ledger t) ++ zip [0;1;2;3;4;5;6;7;8;9] (to_cfg t))
-            else if to_contract t then oz_eqb (Some (st_total (et_std e))) (to_total t) else true
+            else if to_contract t then
+                   oz_eqb (Some (st_total (et_std e))) (to_total t)
+                   && forallb (fun kv => alget (st_allow (et_std e)) (fst (fst kv)) (snd (fst kv)) =? snd kv) (to_allow t)
+                 else true
         end).
 
 (** kinds: 2 flags, 3 registry, 4 bank, 5 supply, 6 accounts, 7 tokens *)
@@ -148,6 +160,8 @@ Definition model_step (MODULE : Z) (s : state xstate) (op : sop) (o : obs) : sta
   | SMsg m => deliver xcall0 xcontract0 MODULE s m
   | STokenCall c caller cl => token_call xcall0 MODULE s c caller cl
   | SBankSend f t d a => bank_send s f t d a
+  | SHook r d a => hook_recv xcall0 xcontract0 MODULE s r d a
+  | SNoop => (s, 1%nat)
   end.
 
 Fixpoint cmp_steps (MODULE : Z) (i : nat) (s : state xstate) (l : list cstep) : list (nat * nat) :=
@@ -180,6 +194,8 @@ Definition mismatches (hs : list hist) : list (nat * (nat * nat)) :=
 Definition tok_obs_eqb (a b : tok_obs) : bool :=
   (to_addr a =? to_addr b) && (to_kind a =? to_kind b) && Bool.eqb (to_contract a) (to_contract b)
   && oz_eqb (to_total a) (to_total b) && list_eqb oz_eqb (to_bals a) (to_bals b)
+  (* allowances: the list of observed (owner, spender) pairs grows during a history; equal on the pairs both list *)
+  && forallb (fun kv => match afind akey_eqb (to_allow b) (fst kv) with Some v => v =? snd kv | None => true end) (to_allow a)
   && list_eqb Z.eqb (to_ledger a) (to_ledger b) && list_eqb Z.eqb (to_cfg a) (to_cfg b).
 
 Definition registry_eqb (o o' : obs) : bool :=
@@ -216,13 +232,25 @@ Definition reported (o : obs) (t : tok_obs) (a : Z) : option Z :=
   match index_of a (o_addrs o) with Some i => nth_oz (to_bals t) i | None => None end.
 
 (** bank after = bank before + deltas (deltas applied in order to the observed map) *)
+Definition bank_apply (deltas : list ((Z * bytes) * Z)) (b : bmap) : bmap :=
+  fold_left (fun m kd => bset m (fst (fst kd)) (snd (fst kd)) (bget m (fst (fst kd)) (snd (fst kd)) + snd kd)) deltas b.
+Definition bank_delta_ok_m (b b' : bmap) (deltas : list ((Z * bytes) * Z)) : bool :=
+  amap_eqb bkey_eqb Z.eqb 0 (bank_apply deltas b) b'.
 Definition bank_delta_ok (o o' : obs) (deltas : list ((Z * bytes) * Z)) : bool :=
-  let expect := fold_left (fun m kd => bset m (fst (fst kd)) (snd (fst kd)) (bget m (fst (fst kd)) (snd (fst kd)) + snd kd))
-                          deltas (o_bank o) in
-  amap_eqb bkey_eqb Z.eqb 0 expect (o_bank o').
+  bank_delta_ok_m (o_bank o) (o_bank o') deltas.
 
+Definition supply_delta_ok_m (sp sp' : smap) (d : bytes) (dv : Z) : bool :=
+  amap_eqb bytes_eqb Z.eqb 0 (sset sp d (sget sp d + dv)) sp'.
 Definition supply_delta_ok (o o' : obs) (d : bytes) (dv : Z) : bool :=
-  amap_eqb bytes_eqb Z.eqb 0 (sset (o_supply o) d (sget (o_supply o) d + dv)) (o_supply o').
+  supply_delta_ok_m (o_supply o) (o_supply o') d dv.
+
+(** the bank / supply deltas monitor kinds 28 / 29 require of a successful conversion of [a] coins of [d]
+    (module-owned pair: escrow; external pair: supply) *)
+Definition mon_bank_deltas (MODULE : Z) (is_cc modown : bool) (sender receiver : Z) (d : bytes) (a : Z)
+  : list ((Z * bytes) * Z) :=
+  if is_cc then ((sender, d), - a) :: (if modown then [((MODULE, d), a)] else [])
+  else ((receiver, d), a) :: (if modown then [((MODULE, d), - a)] else []).
+Definition mon_supply_delta (is_cc modown : bool) (a : Z) : Z := if modown then 0 else if is_cc then - a else a.
 
 (** all tracked balances of a token equal except at [a], which moved by [dv]; total moved by [dt] *)
 Definition tok_delta_ok (o : obs) (t t' : tok_obs) (a dv dt : Z) : bool :=
@@ -281,11 +309,8 @@ Definition mon_msg (MODULE : Z) (o : obs) (m : msg) (cls : nat) (o' : obs) : lis
           let modown := p_owner p =? 1 in
           let is_cc := match m with MCC _ => true | MCE _ => false end in
           (* bank *)
-          (if bank_delta_ok o o'
-                (if is_cc then ((sender, d), - a) :: (if modown then [((MODULE, d), a)] else [])
-                 else ((receiver, d), a) :: (if modown then [((MODULE, d), - a)] else []))
-           then [] else [28%nat])
-          ++ (if supply_delta_ok o o' d (if modown then 0 else if is_cc then - a else a) then [] else [29%nat])
+          (if bank_delta_ok o o' (mon_bank_deltas MODULE is_cc modown sender receiver d a) then [] else [28%nat])
+          ++ (if supply_delta_ok o o' d (mon_supply_delta is_cc modown a) then [] else [29%nat])
           ++ (if (if is_cc
                   then (* the receiver's token balance grew by exactly a *)
                        if modown && (to_kind t =? 1) then tok_delta_ok o t t' receiver a a
@@ -345,6 +370,13 @@ Fixpoint mon_steps (MODULE : Z) (i : nat) (backing_ok : bool) (o : obs) (l : lis
       let o' := cs_obs c in
       let e := match cs_op c with
                | SMsg m => mon_msg MODULE o m (cs_class c) o'
+               | SHook r d a =>
+                   (* all or nothing: reported success = exactly the conversion of [a] for the receiver (same
+                      requirements as a successful MsgConvertCoin with sender = receiver = r); anything else =
+                      nothing changed *)
+                   if Nat.eqb (cs_class c) 0 then mon_msg MODULE o (MCC (hook_msg r d a)) 0 o'
+                   else if obs_eqb o o' then [] else [21%nat]
+               | SNoop => if obs_eqb o o' then [] else [21%nat]
                | SReload => []
                | _ => if negb (Nat.eqb (cs_class c) 0) && negb (obs_eqb o o') then [21%nat] else []
                end in
